@@ -1411,8 +1411,8 @@ func (g *skGen) stmt(k skCtx, depth int) *skStmt {
 			}
 		case c < 9:
 			kind := r.Pick([]string{"and", "or"})
-			x := g.stmt(cond, depth-1)
-			y := g.stmt(k, depth-1)
+			x := skNoFnOperand(g.stmt(cond, depth-1))
+			y := skNoFnOperand(g.stmt(k, depth-1))
 			if y.C.K == "and" || y.C.K == "or" {
 				y = &skStmt{C: &skCmd{K: "block", P: []*skStmt{y}}}
 			}
@@ -1422,14 +1422,14 @@ func (g *skGen) stmt(k skCtx, depth int) *skStmt {
 			return &skStmt{C: &skCmd{K: kind, X: x, Y: y}}
 		case c < 11:
 			if !noSub || g.wildly() {
-				x := g.stmt(skSubCtx(k), depth-1)
+				x := skNoFnOperand(g.stmt(skSubCtx(k), depth-1))
 				x.Neg = false
 				if x.C.K == "and" || x.C.K == "or" {
 					x = &skStmt{C: &skCmd{K: "block", P: []*skStmt{x}}}
 				}
 				var y *skStmt
 				if g.wildly() {
-					y = g.stmt(k, depth-1)
+					y = skNoFnOperand(g.stmt(k, depth-1))
 					y.Neg = false
 					if y.C.K == "and" || y.C.K == "or" || y.C.K == "pipe" {
 						y = &skStmt{C: &skCmd{K: "block", P: []*skStmt{y}}}
@@ -1523,6 +1523,18 @@ func (g *skGen) stmt(k skCtx, depth int) *skStmt {
 			}
 		}
 	}
+}
+
+// skNoFnOperand: a function declaration directly followed by `&&`, `||` or `|` is read by the parser
+// as a function whose body is the whole list (finding C26-funcdecl-list); with a call of the same
+// function in the list that body recurses for ever.  Generated declarations are therefore always
+// list-level statements; as operands they are wrapped in `{ }`.  (The finding's witness is replayed
+// from the corpus.)
+func skNoFnOperand(s *skStmt) *skStmt {
+	if s.C.K == "fn" {
+		return &skStmt{C: &skCmd{K: "block", P: []*skStmt{s}}}
+	}
+	return s
 }
 
 func (g *skGen) program() []*skStmt {
